@@ -1247,7 +1247,9 @@ def trim_cast_varchar(expression: exp.Expression) -> exp.Expression:
         return expression
 
     return exp.Trim(
-        this=exp.Cast(this=operand, to=exp.DataType(this=exp.DataType.Type.VARCHAR, nested=False, prefix=False))
+        this=exp.Cast(this=operand, to=exp.DataType(this=exp.DataType.Type.VARCHAR, nested=False, prefix=False)),
+        # the characters to trim, if given
+        expression=expression.args.get("expression"),
     )
 
 
